@@ -417,6 +417,9 @@ func (it *Interp) equal(fr *frame, x, y Value) *Term {
 		if xv.t != yv.t {
 			return tFalse
 		}
+		if xv.itab != nil && yv.itab != nil && xv.itab != yv.itab {
+			return tFalse // the runtime compares itab pointers first
+		}
 		switch xv.t.kind {
 		case KSlice, KMap, KFunc:
 			it.goPanicf(fr, "comparing uncomparable type %s", xv.t.name)
